@@ -970,6 +970,94 @@ func c11TargetedStore(r *ev.Run) {
 		r.Count("targeted:close-vs-"+action, 1)
 		r.Eval(true, ev.Digest("t3", point, action, ci))
 	})
+	// (iii-b) the other way round: an Add is held in the middle (after the store-level checks, inside the queue / the
+	// memtable), Close is called beside it. Neither may block the other for good: the Add returns (nil or "closed"),
+	// Close returns nil, the LOCK is gone, the directory reopens and an acknowledged Add is there.
+	addPoints := []string{"memq.add.picked", "memtable.add.prelock", "memtable.add.locked"}
+	r.Cases("targeted-add-vs-close", r.Pick(1, 5)*len(addPoints), func(ci int, rng *rand.Rand) {
+		dir, err := os.MkdirTemp("", "verif-c11a-*")
+		if err != nil {
+			panic(err)
+		}
+		defer os.RemoveAll(dir)
+		p := storeParams{VecKind: "flat", Text: true, Meta: true, Dim: 2, Metric: comet.Euclidean, CompactionThreshold: 1000, MemtableSizeLimit: 1 << 20, FlushThreshold: []int64{1, 1 << 40}[ci%2]}
+		s, err := p.open(dir)
+		if err != nil {
+			return
+		}
+		point := addPoints[(ci/2)%len(addPoints)]
+		fail := func(sig, what string, extra map[string]any) {
+			r.ViolationAt("targeted-add-vs-close", ci, sig, fmt.Sprintf("Add held at %s: %s", point, what), extra)
+		}
+		base := uint32(1<<28 + 1<<22 + ci<<8)
+		acked := map[uint32]bool{}
+		for i := 0; i < 2; i++ {
+			d := genStoreDoc(rng, p, base+uint32(i), "pre")
+			if s.AddWithID(d.ID, d.Vec, d.Text, d.Meta) == nil {
+				acked[d.ID] = true
+			}
+		}
+		closeRes := make(chan error, 1)
+		var closeDone chan struct{}
+		ctl.setTarget(point, 1, func(args []any) {
+			_, closeDone = runBeside(func() { closeRes <- s.Close() }, 150*time.Millisecond)
+		})
+		dA := genStoreDoc(rng, p, base+10, "A")
+		addRes := make(chan error, 1)
+		go func() { addRes <- s.AddWithID(dA.ID, dA.Vec, dA.Text, dA.Meta) }()
+		var errA, errC error
+		select {
+		case errA = <-addRes:
+		case <-time.After(60 * time.Second):
+			buf := make([]byte, 1<<20)
+			dump := string(buf[:runtime.Stack(buf, true)])
+			ctl.clearTarget()
+			if goroutineDumpShowsCometDeadlock(dump) {
+				fail("conc.store.deadlock", "an Add with a Close called beside it never returned; every goroutine inside comet is parked on a sync primitive", map[string]any{"goroutine_dump": trimTo(dump, 12000)})
+			} else {
+				r.Inconclusive("add-vs-close watchdog fired without a provable wait cycle")
+			}
+			return
+		}
+		fired := ctl.fired()
+		ctl.clearTarget()
+		if !fired || closeDone == nil {
+			s.Close()
+			r.Inconclusive("add point not reached: " + point)
+			return
+		}
+		select {
+		case errC = <-closeRes:
+		case <-time.After(60 * time.Second):
+			fail("conc.store.deadlock-or-hang", "Close called beside an Add did not return within 60 s after the Add returned", nil)
+			return
+		}
+		if errC != nil {
+			fail("conc.store.close-error", errC.Error(), nil)
+		}
+		// (The held Add itself may return nil although Close has meanwhile returned: the properties promise durability
+		// only for what was acknowledged BEFORE Close returned, so that document is not owed; counted, not judged.)
+		if errA == nil {
+			r.Count("targeted:add-vs-close:add-acknowledged-after-close-returned(not owed)", 1)
+		}
+		if _, err := os.Stat(dir + "/LOCK"); err == nil {
+			fail("conc.store.lock-left-after-close", "LOCK still present after Close returned", nil)
+		}
+		s2, err := p.open(dir)
+		if err != nil {
+			fail("conc.store.open-error", "reopen after Add / Close: "+err.Error(), nil)
+			return
+		}
+		a := searchAllModalities(s2, p)
+		if a.Err != nil {
+			fail("conc.store.search-error", a.Err.Error(), nil)
+		} else if missing, _ := a.check(acked, map[uint32]bool{dA.ID: true}); len(missing) > 0 {
+			fail("conc.store.acknowledged-write-lost", fmt.Sprintf("documents acknowledged before Close was called are missing after restart: %v", missing), nil)
+		}
+		s2.Close()
+		r.Count("targeted:add-vs-close:"+point, 1)
+		r.Eval(true, ev.Digest("t3b", point, ci))
+	})
 	// (iv) Close while the background compaction worker is between writing the merged segment and swapping it in
 	compactPoints := []string{"compact.begin", "crash:compact.create.hybrid", "crash:compact.written"}
 	r.Cases("targeted-close-vs-compaction", r.Pick(1, 5)*len(compactPoints), func(ci int, rng *rand.Rand) {
